@@ -58,37 +58,35 @@ theorem find_prefix {α} (p : α → Bool) (l1 l2 : List α) (h : l1.any p = tru
       simp only [List.any_cons, hp, Bool.false_or] at h
       exact ih h
 
-theorem elems_append (a b : List Item) : elems (a ++ b) = elems a ++ elems b := by
-  induction a with
-  | nil => rfl
-  | cons it r ih => cases it <;> simp [elems, ih]
-
-theorem elems_split (items : List Item) : elems items = elems1 items ++ elems (items.dropWhile (!·.isReserved)) := by
-  rw [elems1, ← elems_append, List.takeWhile_append_dropWhile]
-
 theorem encode_length_pos (b : ExtBlock) : 4 ≤ b.encode.length := by
   rw [encode_shape]; simp only [List.length_cons]; omega
 
 theorem drop4_encode (b : ExtBlock) : b.encode.drop 4 = b.body ++ rep (padTo4 b.body.length) 0 := by
   rw [encode_shape]; rfl
 
-theorem viewUnmarshal_encode (k : ViewKind) (b : ExtBlock) (hf : formMatches k b = true) (hw : b.WF = true) :
+theorem viewUnmarshal_encode (k : ViewKind) (b : ExtBlock) (hf : formMatches k b = true) (hw : b.WF = true)
+    (ha : b.appbits = false) :
     viewUnmarshal k b.encode = .ok b.encode.length := by
   rw [encode_shape]
   simp only [viewUnmarshal, rd16_be]
   cases k <;> cases b <;> simp only [formMatches] at hf <;> try (exact absurd hf (by decide))
   · simp [ExtBlock.profile, profileOneByte]
-  · have : ((0x1000 : UInt16) == profileTwoByte) = true := by decide
-    simp [ExtBlock.profile, this]
+  · rename_i a items
+    simp only [ExtBlock.appbits, bne_eq_false_iff_eq] at ha
+    subst ha
+    have : ((0x1000 + (0 : UInt8).toNat).toUInt16 == profileTwoByte) = true := by decide
+    simp only [ExtBlock.profile, this, ↓reduceIte]
   · rename_i p ws
     simp only [ExtBlock.WF, Bool.and_eq_true, bne_iff_ne, ne_eq] at hw
     have e1 : (p == profileOneByte) = false := by simpa [profileOneByte] using hw.1.1.1
-    have e2 : (p == profileTwoByte) = false := by simpa [profileTwoByte] using hw.1.1.2
+    have e2 : (p == profileTwoByte) = false := by
+      have := legacy_profile p (by simpa using hw.1.1.2)
+      simpa [profileTwoByte] using this
     simp [ExtBlock.profile, e1, e2]
 
 /-- the model's observation of a view on a well-formed block of its own form -/
 theorem modelView_encode (k : ViewKind) (b : ExtBlock) (qs : List UInt8) (fill : UInt8)
-    (hf : formMatches k b = true) (hw : b.WF = true) :
+    (hf : formMatches k b = true) (hw : b.WF = true) (ha : b.appbits = false) :
     modelView { kind := k, block := some b, bytes := b.encode, queries := qs, fill := fill } =
       { unm := .ok b.encode.length
         ids := viewGetIDs k b.encode
@@ -97,60 +95,78 @@ theorem modelView_encode (k : ViewKind) (b : ExtBlock) (qs : List UInt8) (fill :
         size := .ok b.encode.length
         to := [.err .other, .ok (b.encode, b.encode.length), .ok (b.encode ++ [fill], b.encode.length)] } := by
   have := encode_length_pos b
-  simp only [modelView, viewUnmarshal_encode k b hf hw, viewMarshal, viewMarshalSize, view_to b.encode fill (by omega)]
+  simp only [modelView, viewUnmarshal_encode k b hf hw ha, viewMarshal, viewMarshalSize, view_to b.encode fill (by omega)]
 
-theorem view_onebyte (items : List Item) (qs : List UInt8) (fill : UInt8) (hw : (ExtBlock.oneByte items).WF = true) :
-    Pred.C03.view { kind := .oneByte, block := some (.oneByte items), bytes := (ExtBlock.oneByte items).encode,
+theorem view_onebyte (items : List Item) (stop : Option (UInt8 × Bytes)) (qs : List UInt8) (fill : UInt8)
+    (hw : (ExtBlock.oneByte items stop).WF = true) :
+    Pred.C03.view { kind := .oneByte, block := some (.oneByte items stop), bytes := (ExtBlock.oneByte items stop).encode,
                     queries := qs, fill := fill }
-      (modelView { kind := .oneByte, block := some (.oneByte items), bytes := (ExtBlock.oneByte items).encode,
+      (modelView { kind := .oneByte, block := some (.oneByte items stop), bytes := (ExtBlock.oneByte items stop).encode,
                    queries := qs, fill := fill }) = true := by
-  have hok : items.all Item.ok1 = true := by
-    have := blockOk_of_WF _ hw
-    simp only [blockOk, Bool.and_eq_true] at this; exact this.1
-  have h4 := encode_length_pos (.oneByte items)
-  rw [modelView_encode _ _ _ _ rfl hw]
+  have hbo := blockOk_of_WF _ hw rfl
+  simp only [blockOk, Bool.and_eq_true] at hbo
+  obtain ⟨⟨hok, hstop⟩, _⟩ := hbo
+  have h4 := encode_length_pos (.oneByte items stop)
+  rw [modelView_encode _ _ _ _ rfl hw rfl]
   simp only [Pred.C03.view, formMatches, hw, Bool.and_self, Bool.not_true, Bool.false_or, viewOK, beq_self_eq_true,
     Bool.true_and, Bool.and_true, Bool.and_eq_true, beq_iff_eq]
+  have hlt : ¬ (ExtBlock.oneByte items stop).encode.length < 4 := by omega
   refine ⟨?_, ?_⟩
-  · have : ¬ (ExtBlock.oneByte items).encode.length < 4 := by omega
-    simp only [viewGetIDs, this, ↓reduceIte, drop4_encode, ExtBlock.body, oneByteIDs_body items _ hok]
+  · have htail : oneByteIDs (stopBytes stop ++ rep (padTo4 (body1 items ++ stopBytes stop).length) 0) = [] := by
+      cases stop with
+      | none => simpa [stopBytes] using oneByteIDs_pads _
+      | some st =>
+        obtain ⟨n, rest⟩ := st
+        simp only [stopOk, decide_eq_true_eq] at hstop
+        exact oneByteIDs_stop n rest _ hstop
+    simp only [viewGetIDs, hlt, ↓reduceIte, drop4_encode, ExtBlock.body, List.append_assoc,
+      oneByteIDs_body items _ hok htail]
     rfl
   · apply getsOK_map
     intro q v he
-    simp only [viewGet, drop4_encode, ExtBlock.body, oneByteGet_body items _ q hok]
+    simp only [viewGet, drop4_encode, ExtBlock.body, List.append_assoc, oneByteGet_body items _ q hok]
     simp only [expectGet] at he
     split at he
     · rename_i hin
       cases he
       simp only [ExtBlock.lookup, ExtBlock.elements]
-      have hany : (elems1 items).any (·.id == q) = true := by
+      have hany : ∃ e, (elems items).find? (·.id == q) = some e := by
         simp only [ExtBlock.ids, ExtBlock.elements, List.contains_iff_mem, List.mem_map] at hin
         obtain ⟨e, he1, he2⟩ := hin
-        rw [List.any_eq_true]; exact ⟨e, he1, by simp [he2]⟩
-      rw [elems_split items, find_prefix _ _ _ hany]
+        cases hf : (elems items).find? (·.id == q) with
+        | some e' => exact ⟨e', rfl⟩
+        | none =>
+          rw [List.find?_eq_none] at hf
+          exact absurd (by simp [he2]) (hf e he1)
+      obtain ⟨e, hfe⟩ := hany
+      simp [hfe]
     · split at he
       · rename_i hm
         cases he
-        simp only [ExtBlock.mentions, Bool.not_eq_true', List.any_eq_false] at hm
-        have : (elems items).find? (·.id == q) = none := by
+        simp only [ExtBlock.mentions, Bool.not_eq_true', Bool.or_eq_false_iff, List.any_eq_false] at hm
+        obtain ⟨hs, hm⟩ := hm
+        have hnone : (elems items).find? (·.id == q) = none := by
           rw [List.find?_eq_none]; intro x hx; simpa using hm x hx
-        simp [this]
+        have hs' : stop = none := by simpa using hs
+        subst hs'
+        simp only [hnone, stopBytes, List.nil_append]
+        exact oneByteGet_pads _ q
       · cases he
 
-theorem view_twobyte (items : List Item) (qs : List UInt8) (fill : UInt8) (hw : (ExtBlock.twoByte items).WF = true) :
-    Pred.C03.view { kind := .twoByte, block := some (.twoByte items), bytes := (ExtBlock.twoByte items).encode,
+theorem view_twobyte (items : List Item) (qs : List UInt8) (fill : UInt8) (hw : (ExtBlock.twoByte 0 items).WF = true) :
+    Pred.C03.view { kind := .twoByte, block := some (.twoByte 0 items), bytes := (ExtBlock.twoByte 0 items).encode,
                     queries := qs, fill := fill }
-      (modelView { kind := .twoByte, block := some (.twoByte items), bytes := (ExtBlock.twoByte items).encode,
+      (modelView { kind := .twoByte, block := some (.twoByte 0 items), bytes := (ExtBlock.twoByte 0 items).encode,
                    queries := qs, fill := fill }) = true := by
-  have hok : items.all Item.ok2 = true := by
-    have := blockOk_of_WF _ hw
-    simp only [blockOk, Bool.and_eq_true] at this; exact this.1
-  have h4 := encode_length_pos (.twoByte items)
-  rw [modelView_encode _ _ _ _ rfl hw]
+  have hbo := blockOk_of_WF _ hw rfl
+  simp only [blockOk, Bool.and_eq_true] at hbo
+  obtain ⟨⟨_, hok⟩, _⟩ := hbo
+  have h4 := encode_length_pos (.twoByte 0 items)
+  rw [modelView_encode _ _ _ _ rfl hw rfl]
   simp only [Pred.C03.view, formMatches, hw, Bool.and_self, Bool.not_true, Bool.false_or, viewOK, beq_self_eq_true,
     Bool.true_and, Bool.and_true, Bool.and_eq_true, beq_iff_eq]
   refine ⟨?_, ?_⟩
-  · have : ¬ (ExtBlock.twoByte items).encode.length < 4 := by omega
+  · have : ¬ (ExtBlock.twoByte 0 items).encode.length < 4 := by omega
     simp only [viewGetIDs, this, ↓reduceIte, drop4_encode, ExtBlock.body, twoByteIDs_body items _ hok]
     rfl
   · apply getsOK_map
@@ -174,7 +190,7 @@ theorem view_raw (p : UInt16) (ws : Bytes) (qs : List UInt8) (fill : UInt8) (hw 
                     queries := qs, fill := fill }
       (modelView { kind := .raw, block := some (.legacy p ws), bytes := (ExtBlock.legacy p ws).encode,
                    queries := qs, fill := fill }) = true := by
-  rw [modelView_encode _ _ _ _ rfl hw]
+  rw [modelView_encode _ _ _ _ rfl hw rfl]
   simp only [Pred.C03.view, formMatches, hw, Bool.and_self, Bool.not_true, Bool.false_or, viewOK, beq_self_eq_true,
     Bool.true_and, Bool.and_true, Bool.and_eq_true, beq_iff_eq]
   refine ⟨?_, ?_⟩
